@@ -139,6 +139,17 @@ fn faults(labels: &[String], rng: &mut Rng) -> Vec<(&'static str, Vec<Node>)> {
         ("error-directive", vec![Node::Message(MsgKind::Error, "boom".into())]),
         ("division-by-zero", raw(*rng.pick(&[".dw 1/0", "\tldi r16, 5 % 0"]))),
     ];
+    // the same kinds with names of a thousand and more characters: however long the text the error has to quote,
+    // the line number is part of it
+    {
+        let long = format!("{}_{}", ["no_such_symbol_with_a_very_long_name", "NoSuchSymbolWithAVeryLongName", "x"][rng.usize(3)], "long_".repeat(190 + rng.usize(60)));
+        v.push(("unknown-mnemonic", raw(&format!("\tfrob{} r1, 2", long))));
+        v.push(("undefined-symbol-in-instruction", raw(&format!("\tldi r16, low({})", long))));
+        v.push(("undefined-symbol-in-data", raw(&format!(".dw 1, {} + 1", long))));
+        v.push(("undefined-symbol-in-set", raw(&format!(".set fresh_set_var = {}", long))));
+        v.push(("undefined-symbol-in-if", vec![Node::Cond { arms: vec![Arm { cond: Cond::Expr(E::Sym(long.clone())), body: vec![] }], else_body: None }]));
+        v.push(("undefined-alias", raw(&format!("\tinc {}", long))));
+    }
     if !labels.is_empty() {
         let l = rng.pick(labels).clone();
         v.push(("duplicate-label", vec![Node::Label(crate::gen::spell::case(&l, rng))]));
